@@ -302,17 +302,40 @@ func (w *world) followUp(m method, req any, resp any) []headCase {
 			// claim / increase / decrease on whatever position ids exist by then are added by the caller (they depend on the state after the steps above)
 		}
 	}
-	// the same module's methods, with their base requests
+	// the same module's methods with their base requests (the deep-path ones among them: valid
+	// signer, valid proof, in-range index ...), TWICE: a second call in the same process is where
+	// caches, memoised errors and lazily initialised state show
+	out = append(out, w.moduleBattery(m, "module", 2)...)
+	return out
+}
+
+// moduleBattery: the base request of every method of m's module, `passes` times in a row.
+func (w *world) moduleBattery(m method, tag string, passes int) []headCase {
+	var out []headCase
 	r := emit.NewRand(int64(len(m.Key())) + 99)
-	for _, mm := range w.ms {
-		if mm.Module != m.Module {
-			continue
-		}
-		if b := w.base(r, mm.Key()); b != nil {
-			add(mm.Key(), b, "module")
+	for pass := 1; pass <= passes; pass++ {
+		for _, mm := range w.ms {
+			if mm.Module != m.Module || strings.HasSuffix(mm.Name, "UpdateParams") {
+				continue
+			}
+			if b := w.base(r, mm.Key()); b != nil {
+				out = append(out, headCase{mm.Key(), b, fmt.Sprintf("follow:%s.%s/%s pass %d", m.Module, m.Name, tag, pass)})
+			}
 		}
 	}
 	return out
+}
+
+// restoreParams: the UpdateParams message that puts the module's parameters back to what the
+// committed state holds (nil when m is not an UpdateParams).
+func (w *world) restoreParams(m method) any {
+	if m.Name != "UpdateParams" {
+		return nil
+	}
+	over := w.over
+	w.over = nil // base() reads the parameters of the committed state
+	defer func() { w.over = over }()
+	return w.base(emit.NewRand(1), m.Key())
 }
 
 // poolTail: claim, fees, increase and decrease on the positions of a pool, read from the scenario state.
